@@ -6,7 +6,7 @@ import worldgen as W
 ID = "C09"
 LEAN_TARGETS = ["Rsp.Props.C09", "Rsp.Tie.C09"]
 THEOREMS = ["Rsp.Props.C09.scan_inv", "Rsp.Props.C09.choose_meets_spec", "Rsp.Props.C09.never_failing",
-            "Rsp.Props.C09.choose_lost_ok", "Rsp.Props.C09.failback", "Rsp.Props.C09.connectStart_blocking", "Rsp.Props.C09.connectStart_reconnecting_iff",
+            "Rsp.Props.C09.choose_lost_ok", "Rsp.Props.C09.choose_side_effect_once", "Rsp.Props.C09.choose_no_side_effect_below_max", "Rsp.Props.C09.failback", "Rsp.Props.C09.connectStart_blocking", "Rsp.Props.C09.connectStart_reconnecting_iff",
             "Rsp.Tie.C09.maxLost_tie", "Rsp.Tie.C09.stStartup_tie", "Rsp.Tie.C09.stBlocking_tie", "Rsp.Tie.C09.stConnected_tie",
             "Rsp.Tie.C09.stReconnecting_tie", "Rsp.Tie.C09.stFailing_tie", "Rsp.Tie.C09.chooseBetter_tie", "Rsp.Tie.C09.lostLt_tie"]
 RULE = ("choosesrvconf called on hand-built conf lists: every (state x lost 0..16) vector for <=2 servers, every vector over losses {0,1,2,3,15,16} for 3 servers "
